@@ -125,7 +125,14 @@ theorem flaw_illegal_node_name (b : BuildInput) (nd : NodeD) (hnd : nd ∈ b.nod
 /-- ANY node, nested-graph nodes included (the repair "output names of a nested graph are validated") -/
 theorem flaw_illegal_output_name (b : BuildInput) (nd : NodeD) (hnd : nd ∈ b.nodes)
     (o : Name) (ho : o ∈ nd.outputs) (hbad : ¬ LegalName o) : buildGraph b ≠ .ok () :=
-  fun h => hbad (((sound b h).legalNames nd hnd).2 o ho)
+  fun h => hbad (((sound b h).legalNames nd hnd).2.2 o ho)
+
+/-- a nested-graph node whose NAME holds a path separator (`inner.as_node().with_name("a/b")`) is
+rejected, wherever it sits (the repair "reserved characters in a nested-graph node name are rejected
+at construction") -/
+theorem flaw_graph_node_path_name (b : BuildInput) (nd : NodeD) (hnd : nd ∈ b.nodes) (hk : nd.kind = .graph)
+    (hbad : hasPathSep nd.name = true) : buildGraph b ≠ .ok () :=
+  fun h => by simpa [hbad] using ((sound b h).legalNames nd hnd).2.1 hk
 
 theorem flaw_reserved_name (b : BuildInput) (nd : NodeD) (hnd : nd ∈ b.nodes) (hname : nd.name = "END") :
     buildGraph b ≠ .ok () :=
@@ -430,6 +437,18 @@ theorem graph_node_output_name_witness :
     chkIdentifiers b = some (.keywordOutputName "sub" "for") ∧
       buildGraph b = .error (.keywordOutputName "sub" "for") ∧ classify b = "illegal_name" ∧
       chkIdentifiersSkipGraph b = none ∧ buildGraphSkipGraph b = .ok () ∧ classifySkipGraph b = "ok" := by
+  decide
+
+/-- known as the defect repaired by the fix "reserved characters in a nested-graph node name are rejected
+at construction" (`inner.as_node().with_name("a/b")`): the repaired identifier check rejects the node
+(class of an illegal name), and so does the constructor; the pre-repair check did not look at the name
+of a graph node.  A name without separators (`my-graph`) stays legal. -/
+theorem graph_node_path_name_witness :
+    let b : BuildInput := { nodes := [mkNode "src" .fn ["x"] ["a"], mkNode "a/b" .graph ["a"] ["r"]] }
+    chkIdentifiers b = some (.invalidNodeName "a/b") ∧
+      buildGraph b = .error (.invalidNodeName "a/b") ∧ classify b = "illegal_name" ∧
+      chkIdentifiersAnyGraphName b = none ∧
+      buildGraph { nodes := [mkNode "src" .fn ["x"] ["a"], mkNode "my-graph" .graph ["a"] ["r"]] } = .ok () := by
   decide
 
 /-- known as the defect repaired by the fix "a node cannot declare one output name twice"
